@@ -122,6 +122,9 @@ def codecOp (toks : List String) : Option String :=
       | some hb, some fs => some (encOp fam hb name fs)
       | _, _ => none
     else none
+  | ["decsh", _sht, h] =>
+    -- PlainNasDecode into a Message whose SecurityHeader is already filled in: the decoders do not look at it; the call returns
+    (hexToBytes h).map fun _ => "done"
   | ["enc2", fam, hdr, name, fields, _staleName, _staleFields] =>
     -- a Message that still holds the body of an earlier message (a recycled object): the encoders dispatch on the header's message
     -- type, so the result is that of the named body alone (in the model a family holds at most the body the dispatch selects)
